@@ -1647,6 +1647,13 @@ class HTTP11ClientProtocol(Protocol):
 
     _finishResponse_TRANSMITTING = _finishResponse_WAITING
 
+    def _finishResponse_ABORTING(self, rest: bytes) -> None:
+        """
+        The connection is being aborted; the parser is told about the lost
+        connection and may report the end of a close-delimited body.  There
+        is nothing left to do for it.
+        """
+
     def _disconnectParser(self, reason):
         """
         If there is still a parser, call its C{connectionLost} method with the
